@@ -25,6 +25,7 @@ import (
 	"sync/atomic"
 	"testing/synctest"
 	"time"
+	"unsafe"
 )
 
 // Mode of the process. Set once, before any simulation starts.
@@ -459,8 +460,65 @@ func (s *Sim) release() {
 
 // ---- entry points used by instrumented code -------------------------------
 
+// ---- statement reach -------------------------------------------------------
+//
+// Every Step site is a string constant of the instrumented source; the address of its bytes identifies
+// the statement. A fixed open-addressing table of those addresses records which statements of the
+// library this process has executed (all modes). Nothing here draws from a PRNG or reads a clock.
+
+const siteTabSize = 1 << 14
+
+var (
+	siteTab   [siteTabSize]atomic.Uintptr
+	siteMu    sync.Mutex
+	siteNames []string
+)
+
+func siteHit(site string) {
+	if len(site) == 0 {
+		return
+	}
+	p := uintptr(unsafe.Pointer(unsafe.StringData(site)))
+	i := (p >> 2) * 0x9E3779B1 >> 7 & (siteTabSize - 1)
+	for n := 0; n < siteTabSize; n++ {
+		v := siteTab[i].Load()
+		if v == p {
+			return
+		}
+		if v == 0 {
+			siteMu.Lock()
+			if siteTab[i].Load() == 0 {
+				siteTab[i].Store(p)
+				siteNames = append(siteNames, site)
+				siteMu.Unlock()
+				return
+			}
+			siteMu.Unlock()
+			continue // somebody took the slot: look at it again
+		}
+		i = (i + 1) & (siteTabSize - 1)
+	}
+}
+
+// SitesReached returns the Step sites executed by this process so far (sorted, without duplicates).
+func SitesReached() []string {
+	siteMu.Lock()
+	out := append([]string(nil), siteNames...)
+	siteMu.Unlock()
+	sort.Strings(out)
+	j := 0
+	for i, s := range out {
+		if i == 0 || s != out[i-1] {
+			out[j] = s
+			j++
+		}
+	}
+	return out[:j]
+}
+
 // Step is spliced in before every statement of the instrumented packages.
 func Step(site string) {
+	siteHit(site)
 	s := cur.Load()
 	if s == nil {
 		if mode.Load() == ModeRace {
